@@ -120,16 +120,54 @@ def _find_clearers():
     return out
 
 
+_CONTAINERS = None
+
+
+def _find_containers():
+    """Every module-level dict/list/set of the falcon package with a shallow
+    snapshot of its post-import content."""
+    out = []
+    seen = set()
+    for name in sorted(sys.modules):
+        if name != 'falcon' and not name.startswith('falcon.'):
+            continue
+        m = sys.modules[name]
+        d = getattr(m, '__dict__', None)
+        if not d:
+            continue
+        for key in sorted(d):
+            if key.startswith('__'):
+                continue
+            v = d[key]
+            t = type(v)
+            if t not in (dict, list, set) or id(v) in seen:
+                continue
+            seen.add(id(v))
+            out.append((v, t(v)))
+    return out
+
+
 def reset_falcon_caches():
-    """Canonical start state (DESIGN 3.9): clear every process-wide cache."""
-    global _CLEARERS
+    """Canonical start state (DESIGN 3.9): clear every process-wide cache and put
+    every module-level container of the falcon package back to its post-import
+    content, so that no run can see state left behind by an earlier run in the
+    same worker (a verdict must be a function of the run's own choice list)."""
+    global _CLEARERS, _CONTAINERS
     if _CLEARERS is None:
         _CLEARERS = _find_clearers()
+        _CONTAINERS = _find_containers()
     for cc in _CLEARERS:
         try:
             cc()
         except Exception:
             pass
+    for obj, snap in _CONTAINERS:
+        if obj != snap:
+            obj.clear()
+            if type(obj) is list:
+                obj.extend(snap)
+            else:
+                obj.update(snap)
 
 
 def run_case(mod, seed=None, replay=None, prefix=None, tier='quick', keep_labels=False):
@@ -185,3 +223,48 @@ def run_case(mod, seed=None, replay=None, prefix=None, tier='quick', keep_labels
         'overrun': ch.overrun,
         'ops_done': ctx.ops_done,
     }
+
+
+def run_case_isolated(mod, **kw):
+    """run_case in a forked child: every run starts from the pristine
+    post-import process image, so hidden module-level state left behind by an
+    earlier run (e.g. a mutated module global in the code under test) can
+    neither cause nor mask a verdict -- a verdict is a function of the run's
+    choice list alone, which is what makes its replay file reproduce."""
+    import os
+    import pickle
+    r, w = os.pipe()
+    pid = os.fork()
+    if pid == 0:
+        code = 0
+        try:
+            os.close(r)
+            res = run_case(mod, **kw)
+            data = pickle.dumps(res, protocol=pickle.HIGHEST_PROTOCOL)
+            with os.fdopen(w, 'wb') as f:
+                f.write(data)
+        except BaseException:
+            code = 3
+        finally:
+            os._exit(code)
+    os.close(w)
+    chunks = []
+    with os.fdopen(r, 'rb') as f:
+        while True:
+            b = f.read(1 << 16)
+            if not b:
+                break
+            chunks.append(b)
+    _pid, status = os.waitpid(pid, 0)
+    if status != 0 or not chunks:
+        res = run_case.__globals__['_dead_result'](kw, status)
+        return res
+    return pickle.loads(b''.join(chunks))
+
+
+def _dead_result(kw, status):
+    return {'seed': kw.get('seed'), 'choices': list(kw.get('replay') or kw.get('prefix') or []), 'labels': None,
+            'verdicts': [], 'fired': {}, 'offered': {}, 'probes': {}, 'steps': 0, 'vtime': 0.0, 'plan': {},
+            'plan_key': None, 'sched_key': '', 'nontrivial': False, 'digest': 'dead',
+            'harness_error': 'isolated run died with wait status %r' % (status,), 'sweep_pos': None,
+            'sweep_sites': 0, 'overrun': 0, 'ops_done': 0}
